@@ -18,11 +18,33 @@ pub enum Script {
     Coin(u64),
     /// explicit list (true = Continue); Continue once exhausted
     Explicit(Vec<bool>),
+    /// answers by the KIND of decision instead of its index: Break to every report whose kind tag is
+    /// listed ("kind", "missing", "unknown_key", "unknown_value", "bad_len", "unexpected", "foreign"),
+    /// to every hand-over when `merges`, Continue otherwise. `ety`: restrict to one error type (0 = Rec,
+    /// 1 = Rec2), e.g. "the field-level error type stops, the container's keeps going".
+    Policy { reports: Vec<String>, merges: bool, ety: Option<u8> },
+}
+
+/// What a decision is about (for `Script::Policy`).
+pub enum Ask<'a> {
+    Report { tag: &'a str, ety: u8 },
+    Merge { ety: u8 },
 }
 
 impl Script {
+    pub fn answer_for(&self, decision: u32, ask: Ask) -> bool {
+        match self {
+            Script::Policy { reports, merges, ety } => match ask {
+                Ask::Report { tag, ety: e } => !(ety.map_or(true, |x| x == e) && reports.iter().any(|r| r == tag)),
+                Ask::Merge { ety: e } => !(ety.map_or(true, |x| x == e) && *merges),
+            },
+            other => other.answer(decision),
+        }
+    }
+
     pub fn answer(&self, decision: u32) -> bool {
         match self {
+            Script::Policy { .. } => true,
             Script::Continue => true,
             Script::Break => false,
             Script::BreakFrom(k) => decision < *k,
